@@ -176,3 +176,76 @@ Qed.
 (* short frames are never accepted *)
 Lemma short_frame_rejected h f o : (length f < 6)%nat -> rx_filter h f o <> Ok true.
 Proof. intros Hl H. apply rx_filter_iff in H. destruct H as [H _]. lia. Qed.
+(* ---- completeness: what a conforming responder sends is accepted ---- *)
+Lemma lor1_lt64 n : n < 64 -> N.lor n 1 < 64.
+Proof.
+  intros H. change 64 with (2^6).
+  apply N.log2_lt_pow2.
+  - assert (N.lor n 1 <> 0) by (rewrite N.lor_eq_0_iff; intros [_ E]; discriminate). lia.
+  - rewrite N.log2_lor. change (N.log2 1) with 0. rewrite N.max_0_r.
+    destruct (N.eq_dec n 0) as [->|Hn]; [reflexivity|].
+    apply N.log2_lt_pow2; [lia|exact H].
+Qed.
+
+Lemma conforming_reply_accepted h body o : hdr_in_range h -> bytes_ok body = true ->
+  exists f, rsp_frame h body = Ok f /\ length f = (7 + length body)%nat /\
+            bytes_ok f = true /\ rx_filter h f o = Ok true /\ payload f = body.
+Proof.
+  intros (H1 & H2 & H3 & H4 & H5 & H6 & H7) Hd.
+  pose proof (lor1_lt64 _ H6) as H6'.
+  unfold rsp_frame, hdr_rsp_encode, arr_bytes, rsp_hdr_of.
+  cbn [rs_sa rs_lun rq_sa rq_lun rq_seq netfn cmdid].
+  rewrite !byte62_enc by assumption.
+  set (nf := N.lor (netfn h) 1) in *.
+  set (b1 := nf * 4 + rq_lun h). set (b4 := rq_seq h * 4 + rs_lun h).
+  set (c := checksum [rq_sa h; b1]).
+  assert (Hc : c < 256) by apply checksum_is_byte.
+  assert (Hok : bytes_ok [rq_sa h; b1; c; rs_sa h; b4; cmdid h] = true).
+  { cbn. unfold is_byte. subst b1 b4. lia. }
+  rewrite Hok. cbn [bind]. rewrite Hd. cbn [bind].
+  eexists. split; [reflexivity|].
+  set (tail := rs_sa h :: b4 :: cmdid h :: body).
+  split; [cbn; rewrite app_length; cbn; lia|].
+  split. { rewrite !bytes_ok_app, Hok, Hd. cbn [bytes_ok forallb andb].
+           match goal with |- context [is_byte (checksum ?l)] => pose proof (checksum_is_byte l) end.
+           unfold is_byte. lia. }
+  split.
+  { apply rx_filter_iff. unfold filter_spec, nthN.
+    split; [cbn; rewrite app_length; cbn; lia|].
+    split. { cbn [app firstn]. change [rq_sa h; b1; c] with ([rq_sa h; b1] ++ [c]). apply sum256_with_checksum. }
+    split. { cbn [app skipn]. apply (sum256_with_checksum tail). }
+    cbn [app nth]. subst b1 b4.
+    split; [lia|]. split; [reflexivity|].
+    repeat match goal with |- _ /\ _ => split end; intros _; lia. }
+  unfold payload. rewrite !app_length. cbn [length].
+  replace (6 + length body + 1 - 7)%nat with (length body) by lia.
+  cbn [app skipn]. now rewrite firstn_app_exact.
+Qed.
+
+(* a matching reply to a different sequence number or responder LUN is rejected
+   under the default options (the ones every native transport uses) *)
+Lemma other_seq_rejected h h' body f : hdr_in_range h -> hdr_in_range h' ->
+  bytes_ok body = true -> rsp_frame h' body = Ok f ->
+  (rq_seq h' <> rq_seq h \/ rs_lun h' <> rs_lun h \/ cmdid h' <> cmdid h \/
+   N.lor (netfn h') 1 <> N.lor (netfn h) 1) ->
+  rx_filter h f default_opts <> Ok true.
+Proof.
+  intros (H1 & H2 & H3 & H4 & H5 & H6 & H7) (G1 & G2 & G3 & G4 & G5 & G6 & G7) Hd Hf Hne Hacc.
+  pose proof (lor1_lt64 _ G6) as G6'.
+  apply rx_filter_iff in Hacc. unfold filter_spec, nthN in Hacc.
+  revert Hf. unfold rsp_frame, hdr_rsp_encode, arr_bytes, rsp_hdr_of.
+  cbn [rs_sa rs_lun rq_sa rq_lun rq_seq netfn cmdid].
+  rewrite !byte62_enc by assumption.
+  set (nf := N.lor (netfn h') 1) in *.
+  set (nf0 := N.lor (netfn h) 1) in *.
+  set (b1 := nf * 4 + rq_lun h'). set (b4 := rq_seq h' * 4 + rs_lun h').
+  set (c := checksum [rq_sa h'; b1]).
+  assert (Hc : c < 256) by apply checksum_is_byte.
+  assert (Hok : bytes_ok [rq_sa h'; b1; c; rs_sa h'; b4; cmdid h'] = true).
+  { cbn. unfold is_byte. subst b1 b4. lia. }
+  rewrite Hok. cbn [bind]. rewrite Hd. cbn [bind].
+  intros Hf. injection Hf as <-.
+  destruct Hacc as (_ & _ & _ & A3 & A4 & _ & _ & _ & A8 & A9).
+  cbn [app nth] in A3, A4, A8, A9. cbn [default_opts o_rs_lun o_rq_seq] in A8, A9.
+  specialize (A8 eq_refl). specialize (A9 eq_refl). subst b1 b4. lia.
+Qed.
